@@ -50,6 +50,25 @@ Canon(c) ==
                                ELSE <<Magn4(V, c.magn)[v] * (ub[v] - lb[v]), 4>>],
       nlin |-> CASE c.lin = "none" -> 0 [] OTHER -> 2,
       nnl |-> CASE c.nl = "none" -> 0 [] c.nl = "scalar" -> 1 [] OTHER -> 2]
+\* ---- validation in the context of a variable transform  x_user = s_v * x_opt + o_v  (s_v = 2, 1/2, 4 for v = 1, 2, 3;
+\* o_v = v): the stored configuration lives in the optimizer domain.  Bounds (b - o)/s; an absolute magnitude m becomes
+\* m/s; a relative one is the fraction of the transformed range, m (ub - lb)/s.  Everything else as in Canon.
+Scale(v) == CASE v = 1 -> <<2, 1>> [] v = 2 -> <<1, 2>> [] OTHER -> <<4, 1>>
+Offset(v) == v
+QDiv(a, b) == <<a[1] * b[2], a[2] * b[1]>>              \* b > 0
+ScaledBound(b, v) == IF IsInf(b) THEN [inf |-> IF b > 0 THEN 1 ELSE -1, q |-> <<0, 1>>]
+                     ELSE [inf |-> 0, q |-> QDiv(<<b - Offset(v), 1>>, Scale(v))]
+ScaledCanon(c) ==
+  LET x == Canon(c) IN
+  [x EXCEPT !.lb = [v \in 1..c.V |-> ScaledBound(x.lb[v], v)], !.ub = [v \in 1..c.V |-> ScaledBound(x.ub[v], v)],
+            !.magn = [v \in 1..c.V |-> QDiv(x.magn[v], Scale(v))]]
+\* route independence (checked by TLC in MC_C18): transforming the canonical user-domain configuration gives the same
+\* as canonicalising in the transformed domain - relative magnitudes computed from the transformed range
+RelativeInTransformedRange(c) ==
+  c.ptype = "rel" /\ ~Rejected(c) =>
+    \A v \in 1..c.V : LET s == ScaledCanon(c) IN
+       QEq(s.magn[v], QMul(<<Magn4(c.V, c.magn)[v], 4>>, QSub(s.ub[v].q, s.lb[v].q)))
+
 \* the canonical weights sum to one and preserve the ratios (TLC checks this in MC_C18)
 WeightsCanonical(w, raw) ==
   /\ QEq(<<SumTo([i \in DOMAIN w |-> w[i][1]], Len(w)), w[1][2]>>, <<1, 1>>)
